@@ -18,6 +18,7 @@ pub mod c14;
 pub mod c15;
 pub mod c16;
 pub mod c18;
+pub mod c19;
 
 pub type RunFn = fn(&mut Ctx);
 
@@ -56,4 +57,5 @@ table! {
     "C15" => c15::run, c15::replay;
     "C16" => c16::run, c01::replay;
     "C18" => c18::run, c18::replay;
+    "C19" => c19::run, c19::replay;
 }
